@@ -42,6 +42,7 @@ from . import build, project  # noqa: E402
 SCALE = 36       # bases per abstract unit
 MARGIN = 3       # genes stay this far inside their abstract cell (room for codon_start, keeps containment exact)
 TAXON = "bacteria"
+RECORD_ID = "VRF00001.1"
 
 # ---- payload table (DESIGN section 4): fidelity is claimed for exactly this content ----------------------------
 ODD_NOTES = ["5'-3' exonuclease; \"quoted\" text, semi;colon = a/b (c) [d] {e} ~ 100% <x> & more",
@@ -96,7 +97,7 @@ def sequence(length: int, seed: int) -> str:
 
 def skeleton_text(length: int, circ: bool, seed: int) -> str:
     """ GenBank text of an unannotated input record with ordinary header content """
-    bio = SeqRecord(Seq(sequence(length, seed)), id="VRF00001.1", name="VRF00001",
+    bio = SeqRecord(Seq(sequence(length, seed)), id=RECORD_ID, name=RECORD_ID.split(".", maxsplit=1)[0],
                     description="Streptomyces verificans strain V1 chromosome, complete sequence")
     ref = Reference()
     ref.authors = "Model,A. and Checker,B."
@@ -348,7 +349,7 @@ class _Hit:
 
 def exc_text(err) -> str:
     """ exception type and the words of its message (numbers and punctuation dropped, so that one cause is one clause) """
-    words = "".join(ch if ch.isalpha() else " " for ch in str(err)).split()
+    words = "".join(ch if ch.isalpha() else " " for ch in str(err).replace(RECORD_ID, "")).split()
     return type(err).__name__ + ":" + " ".join(words[:7])
 
 
@@ -639,7 +640,7 @@ def random_universe(rng) -> dict:
                           "product": rng.choice(products), "pay": rng.choice([0, 0, 1, 2])})
     genes = []
     for _ in range(rng.randrange(1, 6)):
-        loc = span(2, rng.choice([1, -1]))
+        loc = span(rng.choice([1, 2, 2, 3]), rng.choice([1, -1]))
         if any(g["loc"] == loc or {tuple(p) for p in g["loc"]["parts"]} == {tuple(p) for p in loc["parts"]} for g in genes):
             continue
         # sub-gene features and codon_start of origin-spanning genes are C09's subject (P9): those payloads stay on ordinary genes
@@ -749,6 +750,10 @@ def _bio_digest(bio) -> str:
     return digest(handle.getvalue())
 
 
+def _bio_locations(bio) -> str:
+    return digest([[feature.type, str(feature.location)] for feature in bio.features])
+
+
 def extract_regions(record, workdir: str = None, keep_text: bool = False) -> list:
     """ writes the region file of every region the way main.write_outputs does (one Biopython record shared by all
         regions), reloads each file and projects it; one result per region, each with the full record (secmet
@@ -761,7 +766,8 @@ def extract_regions(record, workdir: str = None, keep_text: bool = False) -> lis
         named_before = _named(record)
         for index, region in enumerate(record.get_regions()):
             out = {"region": index + 1, "exc": "", "seq": codes, "before": add_dna(project_record(record), record),
-                   "bio_before": _bio_digest(bio), "after": EMPTY_REC, "bio_after": ""}
+                   "bio_before": _bio_digest(bio), "after": EMPTY_REC, "bio_after": "",
+                   "bio_locs_before": _bio_locations(bio), "bio_locs_after": ""}
             item = {"exc": "", "rec": EMPTY_REC, "seq": [], "raw": EMPTY_RAW, "pairs": [], "stage": "write", "topology": ""}
             out["ex"] = item
             path = os.path.join(tmp, f"region{index + 1}.gbk")
@@ -771,6 +777,7 @@ def extract_regions(record, workdir: str = None, keep_text: bool = False) -> lis
                 out["exc"] = exc_text(err)
             out["after"] = add_dna(project_record(record), record)
             out["bio_after"] = _bio_digest(bio)
+            out["bio_locs_after"] = _bio_locations(bio)
             if not out["exc"]:
                 try:
                     item["stage"] = "parse"
@@ -928,10 +935,11 @@ def features(uni: dict, hist: list) -> list:
         feats.append("sideloaded_subregion")
     if any(sum(e - s for s, e in a["extent"]["parts"]) == uni["L"] for a in areas):
         feats.append("area_covers_whole_record")
-    # on a ring, areas that together leave no gap of at least half the record make spans and their order ambiguous
-    if uni["circ"] and areas:
+    # on a ring, protoclusters that together leave no gap longer than half the record: the span of their candidates
+    # is no longer the plain union (C05 / C06 call these "big") and a candidate can cover the whole record
+    if uni["circ"] and protos:
         covered = set()
-        for area in areas:
+        for area in protos:
             for start, end in area["extent"]["parts"]:
                 covered.update(range(start, end))
         gap = best = 0
@@ -939,7 +947,7 @@ def features(uni: dict, hist: list) -> list:
             gap = 0 if pos in covered else gap + 1
             best = max(best, gap)
         if 2 * min(best, uni["L"]) <= uni["L"]:
-            feats.append("areas_reach_around_half_the_ring")
+            feats.append("protoclusters_reach_around_half_the_ring")
     for pay, name in ((1, "input_style_gene"), (2, "codon_start"), (6, "codon_start"), (3, "gene_functions"), (4, "nrps_pks_domains"), (5, "prepeptide")):
         if any(g["pay"] == pay for g in genes):
             feats.append(name)
